@@ -16,13 +16,19 @@ CONST_VERSIONS = {
 SYSTEM_CHILD_ID = 255
 
 
+def major_minor(version):
+    """Return the major and minor sections of a version as a tuple of integers."""
+    version = AwesomeVersion(version)
+    return version.section(0), version.section(1)
+
+
 def get_const(protocol_version):
     """Return the const module for the protocol_version."""
     path = next(
         (
             CONST_VERSIONS[const_version]
             for const_version in sorted(CONST_VERSIONS, reverse=True)
-            if AwesomeVersion(protocol_version) >= AwesomeVersion(const_version)
+            if major_minor(protocol_version) >= major_minor(const_version)
         ),
         "mysensors.const_14",
     )
